@@ -130,6 +130,7 @@ func newParser(name string, tokens []token.Token, modules map[string]*ast.Module
 		if err.Level == ddperror.LEVEL_ERROR {
 			parser.errored = true
 		}
+		verifTrace(parser, "deliver", int(err.Level), int(err.Code))
 		errorHandler(err)
 	}
 
@@ -146,6 +147,7 @@ func (p *parser) parse() *ast.Module {
 
 	// main parsing loop
 	for !p.atEnd() {
+		verifTrace(p, "main", p.cur, len(p.tokens))
 		if stmt := p.checkedDeclaration(); stmt != nil {
 			p.module.Ast.Statements = append(p.module.Ast.Statements, stmt)
 		}
@@ -155,6 +157,7 @@ func (p *parser) parse() *ast.Module {
 
 	p.module.Operators = p.Operators
 	p.module.Ast.Faulty = p.errored
+	verifTrace(p, "finish", boolToInt(p.errored), boolToInt(p.module.Ast.Faulty))
 	return p.module
 }
 
@@ -355,6 +358,7 @@ func (p *parser) validateForwardDecls() {
 // if an error was encountered we synchronize to a point where correct parsing is possible again
 func (p *parser) synchronize() {
 	p.panicMode = false
+	verifTrace(p, "sync", p.cur, 0)
 
 	// p.advance() // maybe this needs to stay?
 	for !p.atEnd() {
